@@ -303,6 +303,8 @@ def h20_fail_near_stop(S):
 
     a = S.pick("failure_delayed_by_steps", 5)
     b = S.pick("signal_delayed_by_steps", 5)
+    # ... or no consumer fails at all: a worker that is only finishing its jobs after a stop request is healthy
+    no_failure = a == 0 and S.flag("no_consumer_fails")
     t_f = Fraction(5, 1000)
     out = {}
 
@@ -313,7 +315,7 @@ def h20_fail_near_stop(S):
 
         class Failing(base):
             async def consume(self):
-                if self.queue_name == "q_fail":
+                if self.queue_name == "q_fail" and not no_failure:
                     await asyncio.sleep(t_f - loop.time())
                     for _ in range(a):
                         await asyncio.sleep(0)
@@ -353,6 +355,12 @@ def h20_fail_near_stop(S):
 
     run_async(main)
     S.cover("fail-near-stop")
+    if no_failure:
+        if out["running"] and out["fired"]:
+            S.cover("probed-while-finishing-without-a-failure")
+            S.check("healthy-while-all-consumers-alive", out["probe"] == "200",
+                    info=f"stop request +{b} steps, no consumer failed, worker still finishing its job: endpoint answered {out['probe']}")
+        return
     if a > b:
         # the stop request came first: the consumer is being cancelled, a later error of it is not "a consumer failed"
         # (the unchanged tree answers 200 when the error surfaces 3+ steps after the stop request; recorded in DESIGN.md §4.4)
